@@ -31,6 +31,7 @@ func (c *notCond) string() string {
 	if strings.HasPrefix(next, "(") {
 		return fmt.Sprintf("not %s", c.notC.string())
 	}
-	splitted := strings.Split(next, " ")
-	return strings.Join(append([]string{splitted[0], "not"}, splitted[1:]...), " ")
+	// insert "not" after the key, which may be quoted and contain spaces
+	keyLen := escapedTokenLen(next)
+	return next[:keyLen] + " not" + next[keyLen:]
 }
